@@ -133,6 +133,7 @@ func mapGlobalSecondaryIndexDescriptionToDynamodb(input []types.GlobalSecondaryI
 				ProjectionType:   gs.Projection.ProjectionType,
 			},
 			KeySchema: mapKeySchemaToDynamodb(gs.KeySchema),
+			ItemCount: aws.Int64(gs.ItemCount),
 		}
 	}
 
